@@ -83,13 +83,15 @@ Init ==
   /\ pstat = [p \in DOMAIN exp.nres |-> "idle"] /\ ncall = [p \in DOMAIN exp.nres |-> 0]
   /\ cargs = [t \in 1..NT |-> <<>>]
   /\ written = ParamNames
-  /\ val = [v \in VarNames |-> IF v \in ParamNames THEN ArgTerm(ParamType(v)) ELSE "?"]
+  /\ val = [v \in VarNames |-> IF v \in ParamNames THEN ArgTerm(ParamType(v)) ELSE P.vzero[v]]
   /\ knows = [t \in 1..NT |-> ParamNames]
   /\ endK = {} /\ egErr = "" /\ ictx = FALSE /\ cctx = FALSE
   /\ mainRet = NoRet
   /\ flag = {}
 
 (* ---- how a thread leaves through a return statement ---- *)
+ZeroIsh == {"?", "zero", "nil"}
+
 ErrOf(rerr, inhand) == CASE rerr = "err" -> inhand
                          [] rerr = "ctx" -> CtxErrNow
                          [] rerr = "nil" -> ""
@@ -167,7 +169,7 @@ Enter(t) ==
                               \cup (IF exp.tdeps[p] \cap Failed # {} THEN {F("C06.dependent", in.line, p)} ELSE {})
                               \cup (IF Len(at) # Len(exp.args[p]) THEN {F("C01.value", in.line, p)}
                                     ELSE {F("C01.value", in.line, p) : i \in {j \in DOMAIN at :
-                                            at[j] \notin {"?", "zero"} /\ at[j] # exp.args[p][j]}})
+                                            at[j] \notin ZeroIsh /\ at[j] # exp.args[p][j]}})
                               \cup (IF mainRet.done /\ FaultFree THEN {F("C03.join", in.line, p)} ELSE {}))
   /\ UNCHANGED <<pi, mode, exp, pc, spawned, closed, chK, panicked, written, val, knows, endK, egErr, ictx, cctx, mainRet>>
 
@@ -201,7 +203,7 @@ ExitFail(t) ==
                 /\ Leave(t, "zero", ErrOf(in.rerr, "prov:" \o p), in.rline, {}, Failed \cup {p})
                 /\ UNCHANGED <<pc, written, val, knows>>
            ELSE \* the error is not looked at: the zero results are assigned and the thread goes on
-                /\ AssignRets(t, [k \in DOMAIN in.rets |-> "zero"])
+                /\ AssignRets(t, [k \in DOMAIN in.rets |-> P.vzero[in.rets[k]]])
                 /\ ts' = [ts EXCEPT ![t] = "ready"]
                 /\ pc' = [pc EXCEPT ![t] = @ + 1]
                 /\ flag' = {}
@@ -214,7 +216,8 @@ Field(t) ==
      IN /\ flag' = ReadFlags(t, in.src, in.line)
         /\ written' = IF in.dst = "_" THEN written ELSE written \cup {in.dst}
         /\ val' = IF in.dst = "_" THEN val
-                  ELSE [val EXCEPT ![in.dst] = IF val[in.src] \in {"?", "zero"} THEN val[in.src] ELSE FldTerm(val[in.src], in.field)]
+                  ELSE [val EXCEPT ![in.dst] = IF in.src \notin written \/ val[in.src] \in ZeroIsh THEN P.vzero[in.dst]
+                                               ELSE FldTerm(val[in.src], in.field)]
         /\ knows' = [knows EXCEPT ![t] = @ \cup {in.dst}]
   /\ pc' = [pc EXCEPT ![t] = @ + 1]
   /\ UNCHANGED <<pi, mode, exp, ts, spawned, closed, chK, panicked, pstat, ncall, cargs, endK, egErr, ictx, cctx, mainRet>>
